@@ -161,6 +161,8 @@ rule('D17', 'editor', r'pub fn text_range\(&self, range: impl RangeBounds<usize>
      'monomorphisation: text_range is generic over RangeBounds<usize>, for which vstd has no generic spec; it is '
      'verified at RangeFrom<usize>, the only instantiation in the crate (cli.rs: editor.text_range(initial_cursor..)); '
      'the other match arms are then dead code')
+rule('X7', 'autocomplete', r"#\[derive\(Debug\)\]\npub struct Autocompletion<'a> \{", "pub struct Autocompletion<'a> {", 1,
+     'NOT MIRRORED: derived Debug of Autocompletion (the mirror adds an erased ghost field, which has no Debug impl)')
 rule('X8', 'autocomplete', r"pub struct Autocompletion<'a> \{\n    autocompleted: Option<usize>,\n    buffer: &'a mut \[u8\],\n    partial: bool,\n\}",
      "pub struct Autocompletion<'a> {\n    pub autocompleted: Option<usize>,\n    pub buffer: &'a mut [u8],\n    pub partial: bool,\n}", 1,
      'visibility only: the fields are made public in the mirror (Verus treats a struct with any private field as '
@@ -245,12 +247,64 @@ rule('D5', 'cli', r'let result = input_generator\n\s*\.accept\(b\)\n\s*\.map\(\|
      r'let result = match input_generator.accept(b) {\n                Some(input) => match input {\n\1\n                },\n                None => Ok(()),\n            };', 1,
      'Option::map(closure).unwrap_or(Ok(())) == match (definitions of map / unwrap_or); the closure captures &mut self',
      flags=re.M | re.S)
+rule('X9', 'cli', r'(\n\s*)_ => \{\}(\n\s*\}\n\s*\}\);)', r'\1_ => {\1}\2', 1,
+     'whitespace only: the empty block of the `_` arm in the completion closure is written over two lines so that a '
+     'ghost proof block can be spliced into it')
 rule('D10', 'cli', r'C::command_help\(&mut \|_\| Ok\(\(\)\), command\.clone\(\), &mut writer\)',
      'C::command_help(&mut |_p: &mut Writer<\'_, W, E>| -> (r: Result<(), E>) ensures r is Ok { Ok(()) }, command.clone(), &mut writer)', 1,
      'closure parameter `_` named and typed; the closure contract (returns Ok, touches nothing) is spliced with it')
 
+# ---- tmpl_autocomplete (code emitted by #[derive(Command)], see tools/template.py) --------------------
+def _iter_chain(m):
+    """NAMES.iter()[.skip_while(|n| S)][.take_while(|n| T)][.filter(|n| F)].for_each(|n| { BODY });  ->  index loop.
+    By the definitions of the adapters: skip_while drops elements while S holds (phase 0) and passes everything
+    from the first element on which S fails; take_while passes elements while T holds and ends the iteration
+    at the first one on which it fails; filter passes the elements on which F holds; for_each runs BODY on
+    every element that got through, in order."""
+    ind = m.group(1)
+    adapters = re.findall(r'\.(skip_while|take_while|filter)\(\|n\| ([^\n]*)\)\n', m.group(2))
+    body = m.group(3)
+    kinds = [a[0] for a in adapters]
+    if kinds != sorted(kinds, key=['skip_while', 'take_while', 'filter'].index) or len(set(kinds)) != len(kinds):
+        raise DesugarMismatch('tmpl_autocomplete: adapter chain %s is not in the catalogue' % kinds)
+    conds = dict(adapters)
+    out = []
+    i1 = ind + '    '
+    if 'skip_while' in conds:
+        out.append(ind + 'let mut __skipping = true;')
+    if 'take_while' in conds:
+        out.append(ind + 'let mut __taking = true;')
+    out.append(ind + 'for __i in 0..NAMES.len() {')
+    out.append(i1 + 'let n = &NAMES[__i];')
+    guard = []
+    if 'skip_while' in conds:
+        out.append(i1 + 'if __skipping && !(%s) { __skipping = false; }' % conds['skip_while'])
+        guard.append('!__skipping')
+    if 'take_while' in conds:
+        pre = ' && '.join(guard + ['__taking'])
+        out.append(i1 + 'if %s && !(%s) { __taking = false; }' % (pre, conds['take_while']))
+        guard.append('__taking')
+    if 'filter' in conds:
+        guard.append('(%s)' % conds['filter'])
+    out.append(i1 + 'if %s {' % (' && '.join(guard) if guard else 'true'))
+    for l in body.split('\n'):
+        out.append(l)
+    out.append(i1 + '}')
+    out.append(ind + '}')
+    return '\n'.join(out)
+
+
+rule('D18', 'tmpl_autocomplete',
+     r'^([ \t]*)NAMES\n\s*\.iter\(\)\n((?:\s*\.(?:skip_while|take_while|filter)\(\|n\| [^\n]*\)\n)*)\s*\.for_each\(\|n\| \{\n(.*?)\n\s*\}\);',
+     _iter_chain, 1,
+     'iterator adapter chain over a slice ending in for_each == index loop with the adapters\' state made explicit '
+     '(definitions of Iterator::skip_while / take_while / filter / for_each)', flags=re.M | re.S)
+rule('D3', 'tmpl_autocomplete', r'\bn\.starts_with\(name\)', 'crate::verif_specs::str_starts_with(n, name)', None,
+     'str::starts_with(&str) == byte-prefix test (shim contract)')
+
 
 def apply(module, src, log):
+    _cnt[0] = 0   # parameter numbering restarts with every module text (several mirrors are built per process)
     for r in RULES:
         if r['module'] not in ('*', module):
             continue
